@@ -1226,6 +1226,21 @@ def cases(tier, seed):
         c = dict(extra[(seed + i) % len(extra)])
         c['extra'] = True
         yield c
+    # ---- a vertex of degree 16, 17, 18 (one parity over more literals than a
+    # 16-bit mask holds); the leaves force every edge, so the instances are easy
+    for leaves in (16, 17):
+        n = leaves + 1
+        star = [[1, v] for v in range(2, n + 1)]
+        for charges in (None, [True] * n, [False] + [True] * leaves,
+                        [(v % 3 == 0) for v in range(n)], [True] + [False] * leaves):
+            c = {'fam': 'tseitin', 'n': n, 'E': star}
+            if charges is not None:
+                c['charges'] = charges
+            yield c
+        # the centre is the LAST vertex
+        star2 = [[v, n] for v in range(1, n)]
+        yield {'fam': 'tseitin', 'n': n, 'E': star2, 'charges': [True] * leaves + [leaves % 2 == 1]}
+        yield {'fam': 'tseitin', 'n': n, 'E': star2, 'charges': [True] * leaves + [leaves % 2 == 0]}
 
 
 # ==================================================================== shards
